@@ -266,6 +266,7 @@ class Stacker(Transformer):
                 X = X.rename({sample_name: self.dims_mapping[sample_name][0]})
 
         ds: DataSet = X.to_unstacked_dataset(feature_name, "variable")
+        ds = self._restore_squeezed_dims(ds, X)
         # Unstack only the internally stacked dimensions; a MultiIndex of the user's
         # own sample dimension (scores of a fitted model carry it) must stay intact
         stacked = [
@@ -279,8 +280,18 @@ class Stacker(Transformer):
 
     def _unstack_to_dataset_components(self, data: DataArray) -> DataSet:
         feature_name = self.feature_name
-        ds: DataSet = data.to_unstacked_dataset(feature_name, "variable").unstack()
+        ds: DataSet = data.to_unstacked_dataset(feature_name, "variable")
+        ds = self._restore_squeezed_dims(ds, data).unstack()
         ds = self._reorder_dims(ds)
+        return ds
+
+    def _restore_squeezed_dims(self, ds: DataSet, X: DataArray) -> DataSet:
+        """`to_unstacked_dataset` squeezes dimensions of length one (a single mode,
+        sample or bootstrap member); restore them."""
+        for dim in X.dims:
+            if dim != self.feature_name and dim not in ds.dims:
+                ds = ds.drop_vars(dim, errors="ignore")
+                ds = ds.expand_dims({dim: X[dim].values} if dim in X.coords else dim)
         return ds
 
     def _type_name(self, X):
